@@ -140,12 +140,13 @@ def run(pid, tier):
         chk.set("model", dict(spec=SPEC_MC, MemSize=1024, MaxLen=maxlen, distinct_states=res.distinct,
                               transitions=res.generated, invariants=invs))
         # ---- Leg R: the same model at 64 MiB, one line per transition ----
-        sizes = [0, 1, 8, 256, 257, MEM - 257, MEM - 256, MEM - 8, MEM, MEM + 1]
-        wl, cl = "{1, 8}", "{8}"
         if thorough:
-            sizes += [255, 4096, MEM - 4096, MEM - 1]
-            cl = "{1, 8}"
-        rlen = 3 if thorough else 2
+            sizes = [0, 1, 8, 255, 256, 257, 4096, MEM - 4096, MEM - 257, MEM - 256, MEM - 8, MEM - 1, MEM, MEM + 1]
+            wl, cl = "{1, 8}", "{1, 8}"
+        else:
+            sizes = [0, 1, 8, 256, MEM - 256, MEM - 8, MEM + 1]
+            wl, cl = "{8}", "{8}"
+        rlen = 3
         dump = os.path.join(vlib.WORK, "%s_gen.out" % pid)
         res2 = tc.model_check(chk, SPEC_MC, workers=1, need_actions=acts, dump_out=dump, tag=pid + "_gen", timeout=2400,
                               constants={"MemSize": MEM, "MaxLen": rlen, "Sizes": _sizes(sizes), "WLens": wl, "CLens": cl,
